@@ -40,8 +40,12 @@ func genC09(t *rapid.T) C09Case {
 	if rapid.IntRange(0, 9).Draw(t, "capfree") == 0 {
 		c.Capacity = rapid.Uint32Range(0, 200000).Draw(t, "capv")
 	}
-	n := rapid.IntRange(1, 40).Draw(t, "n")
-	for i := 0; i < n; i++ {
+	c.Ops = rapid.SliceOfN(rapid.Custom(genC09Op), 1, 40).Draw(t, "ops")
+	return c
+}
+
+func genC09Op(t *rapid.T) C09Op {
+	{
 		k := rapid.SampledFrom([]string{"add", "add", "add", "update", "update", "get", "push", "pop", "reset", "last", "reserved"}).Draw(t, "kind")
 		op := C09Op{Kind: k}
 		switch k {
@@ -72,9 +76,8 @@ func genC09(t *rapid.T) C09Case {
 		case "get", "reserved":
 			op.Key = rapid.SampledFrom(c09Keys).Draw(t, "key")
 		}
-		c.Ops = append(c.Ops, op)
+		return op
 	}
-	return c
 }
 
 // --- reference cache -------------------------------------------------------
